@@ -13,37 +13,47 @@ EXTENDS Naturals, FiniteSets, Sequences, SequencesExt, TLC, Json
 CONSTANTS MaxEntries
 
 NameClasses == {"own", "own2", "wf", "audit", "bak", "gz", "d13", "d15", "prefixx", "unrelated", "alnum",
-                "emptysuffix", "dotted", "dashdate", "commav", "bare"}
+                "emptysuffix", "dotted", "dashdate", "commav", "bare", "dotsub", "insub"}
 \* own / own2: <name>.<14 digits> (two different timestamps); wf: <name>.wf.<14 digits>;
 \* audit: <name>.audit.<14 digits>; bak: <name>.bak; gz: <name>.1.gz; d13 / d15: 13 / 15 digits;
 \* prefixx: <name>x.<14 digits>; unrelated: other.txt; alnum: 13 digits and a letter;
 \* emptysuffix: "<name>."; dotted: <name>.<14 digits>.gz; dashdate: <name>-20240101; commav: <name>,v;
-\* bare: <name> itself (these three sort before "<name>." in a directory listing)
+\* bare: <name> itself (these three sort before "<name>." in a directory listing);
+\* dotsub: <name> with its dots replaced by another character, then .<14 digits> (a sibling appender's files);
+\* insub: <name>.<14 digits> inside a sub-directory of the log directory
 OwnClass(c) == c \in {"own", "own2"}
 Kinds == {"file", "dir"}
-Ages  == {"older", "younger"}
+Ages  == {"older", "younger",
+          "rewritten"}   \* young at the first scan, written again afterwards; the second scan runs when its first
+                         \* modification time has fallen behind the cut-off - it is still young
 Entry == [name : NameClasses, kind : Kinds, age : Ages]
 
 Removed(e) == OwnClass(e.name) /\ e.kind = "file" /\ e.age = "older"
 
-VARIABLES pop, phase, survivors
-vars == <<pop, phase, survivors>>
+VARIABLES pop, phase, survivors, survivors2
+vars == <<pop, phase, survivors, survivors2>>
 
 \* populations are built one entry at a time; two entries cannot share a name
-Init == pop = {} /\ phase = "build" /\ survivors = {}
+Init == pop = {} /\ phase = "build" /\ survivors = {} /\ survivors2 = {}
 Add(e) == /\ phase = "build" /\ Cardinality(pop) < MaxEntries
           /\ \A x \in pop : x.name # e.name
-          /\ pop' = pop \cup {e} /\ UNCHANGED <<phase, survivors>>
+          /\ (e.age = "rewritten" => OwnClass(e.name) /\ e.kind = "file")     \* only there does the age matter
+          /\ pop' = pop \cup {e} /\ UNCHANGED <<phase, survivors, survivors2>>
 Cleanup == /\ phase = "build" /\ pop # {}
-           /\ survivors' = { e \in pop : ~Removed(e) } /\ phase' = "cleaned" /\ UNCHANGED pop
-Next == (\E e \in Entry : Add(e)) \/ Cleanup
+           /\ survivors' = { e \in pop : ~Removed(e) } /\ phase' = "cleaned" /\ UNCHANGED <<pop, survivors2>>
+\* a later scan by the same appender: nothing new has expired (rewritten files were written again)
+Cleanup2 == /\ phase = "cleaned" /\ \E e \in pop : e.age = "rewritten"
+            /\ survivors2' = { e \in survivors : ~Removed(e) } /\ phase' = "cleaned2" /\ UNCHANGED <<pop, survivors>>
+Next == (\E e \in Entry : Add(e)) \/ Cleanup \/ Cleanup2
 Spec == Init /\ [][Next]_vars
 
-CleanupExact == phase = "cleaned" =>
+SecondScanKeeps == phase = "cleaned2" => survivors2 = survivors
+CleanupExact == phase \in {"cleaned", "cleaned2"} =>
    /\ \A e \in pop : (e \in survivors) = ~(OwnClass(e.name) /\ e.kind = "file" /\ e.age = "older")
    /\ \A e \in pop : e.kind = "dir" => e \in survivors                 \* never sub-directories
    /\ \A e \in pop : e.age = "younger" => e \in survivors              \* never files younger than the maximum age
    /\ \A e \in pop : ~OwnClass(e.name) => e \in survivors              \* never files that merely share the prefix
-Emit == phase = "cleaned" =>
-          PrintT(<<"EMIT", ToJson([pop |-> SetToSeq(pop), survivors |-> SetToSeq(survivors)])>>)
+\* a population with rewritten entries is emitted once, after its second scan
+Emit == ((phase = "cleaned" /\ \A e \in pop : e.age # "rewritten") \/ phase = "cleaned2") =>
+          PrintT(<<"EMIT", ToJson([pop |-> SetToSeq(pop), survivors |-> SetToSeq(survivors), twoscans |-> phase = "cleaned2"])>>)
 =============================================================================
